@@ -1332,7 +1332,10 @@ func stripSensitiveHeadersOnRedirect(req *Request, initialHost []byte, redirectU
 }
 
 func isSensitiveRedirectHeader(key []byte) bool {
+	// Cookie as well: a request parsed from the wire with normalization
+	// disabled keeps a "cookie" field in the generic header list.
 	return caseInsensitiveCompare(key, strAuthorization) ||
+		caseInsensitiveCompare(key, strCookie) ||
 		caseInsensitiveCompare(key, s2b(HeaderCookie2)) ||
 		caseInsensitiveCompare(key, s2b(HeaderProxyAuthenticate)) ||
 		caseInsensitiveCompare(key, s2b(HeaderProxyAuthorization)) ||
